@@ -1753,6 +1753,10 @@ func resolveIndex(v, index reflect.Value, indexAsStr string) (reflect.Value, err
 		if !indexVal.Type().ConvertibleTo(v.Type().Key()) {
 			return reflect.Value{}, fmt.Errorf("can't use %s (%s) as key for map of type %s", indexAsStr, indexVal.Type(), v.Type())
 		}
+		if !indexVal.Type().Comparable() {
+			// e.g. a slice as key for a map[interface{}]T: MapIndex would panic with a runtime error
+			return reflect.Value{}, fmt.Errorf("can't use %s (unhashable type %s) as key for map of type %s", indexAsStr, indexVal.Type(), v.Type())
+		}
 		index = indexVal.Convert(v.Type().Key()) // noop in most cases, but not expensive
 		return indirectEface(v.MapIndex(index)), nil
 	case reflect.Ptr:
